@@ -78,6 +78,19 @@ CLAIMED = {
         note="Trusted: the generic fake backend, loopback TCP. Large pairs are covered at boundary ids and a stride only.",
         technique="bounded-exhaustive enumeration of configurations x shard ids on the implementation (handler and end-to-end wiring)",
         design_ref="5/C07", engine="B-enum"),
+    "C12": dict(
+        level="exploration",
+        text="Bounded-exhaustive enumeration over the protobuf descriptors: for every request and response type of WorkflowService and "
+             "AdminService (308 roots) every structural path - through message fields, repeated fields, map values, every oneof arm, "
+             "History.events, every history event type, failure cause chains and links up to two occurrences of a type, and the eleven "
+             "event-bearing DataBlob fields - to a namespace-name field; per path the minimal message with the mapped name there (with and "
+             "without a preceding skippable event), per root the fully populated message, through the public Translator interface and the "
+             "unary TranslationInterceptor. Oracle: result equals an independent descriptor-driven reference translation (blobs compared "
+             "after decoding) and the changed flag agrees; this also decides 'shortcuts never change the result'.",
+        note="Trusted: the reference walker (protoreflect), the definition 'namespace-name field = string field named namespace or *_namespace, "
+             "or NamespaceInfo.name', the list of event-bearing blob fields. Recursion bound: each message type at most twice per path.",
+        technique="bounded-exhaustive enumeration of descriptor paths against a reference translator",
+        design_ref="5/C12", engine="B-enum"),
     "C20": dict(
         level="model_checking",
         text="Bounded-exhaustive histories of stream opens on the real StreamWorkflowReplicationMessages handler with the real "
@@ -146,7 +159,7 @@ def main():
         "engines": [
             {"name": "B-seq", "path": "/verif/harness", "serves_properties": ["C05"],
              "kind_free_text": "explicit-state / bounded-exhaustive enumeration driving the real code in-package"},
-            {"name": "B-enum", "path": "/verif/harness", "serves_properties": ["C07"],
+            {"name": "B-enum", "path": "/verif/harness", "serves_properties": ["C07", "C12"],
              "kind_free_text": "bounded-exhaustive enumeration of a finite structurally defined input space against a reference computed independently"},
             {"name": "A-macro", "path": "/verif/harness/proxy/routing_*.go + /verif/rt/pool.go", "serves_properties": ["C01", "C02", "C03", "C04", "C06", "C20"],
              "kind_free_text": "explicit-state BFS whose transitions are executions of the real goroutines in testing/synctest bubbles; "
